@@ -15,6 +15,7 @@ import (
 	"encoding/hex"
 	"encoding/json"
 	"fmt"
+	"math"
 	"math/rand"
 	"os"
 	"path/filepath"
@@ -29,6 +30,7 @@ import (
 	"github.com/google/osv-scalibr/guidedremediation"
 	"github.com/google/osv-scalibr/guidedremediation/options"
 	"github.com/google/osv-scalibr/guidedremediation/result"
+	"github.com/google/osv-scalibr/guidedremediation/upgrade"
 	"github.com/ossf/osv-schema/bindings/go/osvschema"
 
 	"verif/harness/hx"
@@ -247,6 +249,11 @@ type rootDep struct {
 	Opt   bool   `json:",omitempty"` // npm only: the entry sits in optionalDependencies
 	Prop  string `json:",omitempty"` // Maven only: <version>${Prop}</version>, the pom defining <Prop>Req</Prop>
 	Level int    `json:",omitempty"` // Maven only: the pom that declares the entry, 0 = the manifest itself, k = its k-th local parent
+	Mgmt  bool   `json:",omitempty"` // Maven only: the entry sits in <dependencyManagement> (single-file manifests)
+}
+type workPkg struct {
+	Name string
+	Deps [][2]string
 }
 type e2eCase struct {
 	Eco         string // "n" npm / relax, "m" Maven / override
@@ -264,6 +271,12 @@ type e2eCase struct {
 	// Maven only: the manifest is the last module of a multi-module layout top/[mid/]app with Parents local parent poms (0 = single
 	// file).  OmitIDs[k]: the k-th pom (0 = the manifest) leaves out <groupId>/<version> and inherits them from its own parent;
 	// ExplicitRP[k]: it spells <relativePath>../pom.xml</relativePath> out instead of relying on the default.
+	// npm only: workspace packages ws/<dir>/package.json of the root (which lists "workspaces": ["ws/*"]); each has requirements of
+	// its own.  They are resolved as part of the root's graph (local manifests are made known to the resolver); the root file is the
+	// only one the strategy may rewrite.
+	Work        []workPkg `json:",omitempty"`
+	MinSeverity float64 `json:",omitempty"`
+	MavenMgmt   bool    `json:",omitempty"` // ResolutionOptions.MavenManagement: dependencyManagement entries that nothing requires count as dependencies
 	Parents    int    `json:",omitempty"`
 	OmitIDs    []bool `json:",omitempty"`
 	ExplicitRP []bool `json:",omitempty"`
@@ -299,7 +312,18 @@ func writeRoot(c e2eCase, dir string) string {
 				deps = append(deps, e)
 			}
 		}
-		s := "{\n  \"name\": \"root\",\n  \"version\": \"1.0.0\",\n  \"dependencies\": {\n" + strings.Join(deps, ",\n") + "\n  },\n  \"optionalDependencies\": {\n" + strings.Join(opt, ",\n") +
+		ws := ""
+		for i, w := range c.Work {
+			ws = "  \"workspaces\": [\"ws/*\"],\n"
+			var wd []string
+			for _, e := range w.Deps {
+				wd = append(wd, fmt.Sprintf("    %q: %q", e[0], e[1]))
+			}
+			wdir := filepath.Join(dir, "ws", fmt.Sprintf("w%d", i))
+			must(os.MkdirAll(wdir, 0o755))
+			must(os.WriteFile(filepath.Join(wdir, "package.json"), []byte(fmt.Sprintf("{\n  \"name\": %q,\n  \"version\": \"1.0.0\",\n  \"dependencies\": {\n%s\n  }\n}\n", w.Name, strings.Join(wd, ",\n"))), 0o644))
+		}
+		s := "{\n  \"name\": \"root\",\n  \"version\": \"1.0.0\",\n" + ws + "  \"dependencies\": {\n" + strings.Join(deps, ",\n") + "\n  },\n  \"optionalDependencies\": {\n" + strings.Join(opt, ",\n") +
 			"\n  },\n  \"devDependencies\": {\n" + strings.Join(dev, ",\n") + "\n  }\n}\n"
 		p := filepath.Join(dir, "package.json")
 		must(os.WriteFile(p, []byte(s), 0o644))
@@ -319,8 +343,25 @@ func writeRoot(c e2eCase, dir string) string {
 	if len(props) > 0 {
 		sb.WriteString("  <properties>\n" + strings.Join(props, "") + "  </properties>\n")
 	}
+	anyMgmt := false
+	for _, d := range c.Root {
+		if d.Mgmt {
+			if !anyMgmt {
+				sb.WriteString("  <dependencyManagement>\n    <dependencies>\n")
+				anyMgmt = true
+			}
+			g, a, _ := strings.Cut(d.Name, ":")
+			sb.WriteString("      <dependency>\n        <groupId>" + g + "</groupId>\n        <artifactId>" + a + "</artifactId>\n        <version>" + d.Req + "</version>\n      </dependency>\n")
+		}
+	}
+	if anyMgmt {
+		sb.WriteString("    </dependencies>\n  </dependencyManagement>\n")
+	}
 	sb.WriteString("  <dependencies>\n")
 	for _, d := range c.Root {
+		if d.Mgmt {
+			continue
+		}
 		g, a, _ := strings.Cut(d.Name, ":")
 		ver := d.Req
 		if d.Prop != "" {
@@ -509,13 +550,14 @@ func runE2E(c e2eCase) string {
 		if err != nil {
 			return "r=readerr"
 		}
+		want := e2eWant(c, path, cl, osvs)
 		mkOpts := func() options.FixVulnsOptions {
 			cfg := remx.ConfigFor(c.line(), c.Levels)
 			return options.FixVulnsOptions{
 				Manifest: path, MaxUpgrades: c.MaxUpgrades, NoIntroduce: c.NoIntroduce, MatcherClient: remx.Matcher(osvs), ResolveClient: cl,
 				DefaultRepository: "http://127.0.0.1:1/",
 				RemediationOptions: options.RemediationOptions{IgnoreVulns: slices.Clone(c.Ignore), ExplicitVulns: slices.Clone(c.Explicit), DevDeps: c.DevDeps,
-					MaxDepth: c.MaxDepth, UpgradeConfig: cfg},
+					MaxDepth: c.MaxDepth, MinSeverity: c.MinSeverity, UpgradeConfig: cfg, ResolutionOptions: options.ResolutionOptions{MavenManagement: c.MavenMgmt}},
 			}
 		}
 		// every run gets options built afresh from the case; after the first run the struct handed in is compared with a
@@ -565,9 +607,165 @@ func runE2E(c e2eCase) string {
 				ru = append(ru, fmt.Sprintf("%d.%d:%s:%d", nb.id(nb.names, u.Name, false), nb.id(nb.discs, typeDisc(c, u.Type), true), f, nb.id(nb.vers, u.VersionTo, false)))
 			}
 		}
-		return fmt.Sprintf("r=ok mut=%s k=%d explicit=%s orig=%s np=%d fixed=%s intro=%s after=%s unfix=%s reqsame=%s ups=%d rb=%s ra=%s ru=%s", hx.B(mutated), c.MaxUpgrades, dots(expl), dots(idNums(res1.Vulnerabilities)), len(res1.Patches),
+		return fmt.Sprintf("r=ok want=%s mut=%s k=%d explicit=%s orig=%s np=%d fixed=%s intro=%s after=%s unfix=%s reqsame=%s ups=%d rb=%s ra=%s ru=%s", want, hx.B(mutated), c.MaxUpgrades, dots(expl), dots(idNums(res1.Vulnerabilities)), len(res1.Patches),
 			dots(fixed), dots(intro), dots(idNums(res2.Vulnerabilities)), dots(unfix), hx.B(slices.Equal(before, after1)), nups, rb, ra, hx.Join(ru, ","))
 	})
+}
+
+// e2eWant recomputes, independently of remediation.MatchVuln / FindVulnerabilities' bookkeeping, which vulnerabilities the options of
+// the case select in the ORIGINAL manifest.  Only the resolved graph (deps.dev resolver, neutral options) and the affected-version
+// predicate are taken from elsewhere; presence, depth, dev-only and severity are worked out here from the graph and the case:
+//   selected(v) = some node other than the root is affected by v
+//               ∧ (no explicit list ∨ v's id is on it) ∧ neither v's id nor one of its aliases is on the ignore list
+//               ∧ (DevDeps ∨ some affected node is reachable through a direct dependency that is not dev / test scoped)
+//               ∧ (v has no CVSS severity that scores ∨ its highest score, to one decimal, ≥ MinSeverity to one decimal)
+//               ∧ (MaxDepth ≤ 0 ∨ some affected node is within MaxDepth edges of the root)
+func e2eWant(c e2eCase, path string, cl resolve.Client, osvs []*osvschema.Vulnerability) string {
+	var rw guidedremediation.VerifReadWriter
+	var err error
+	sys := resolve.NPM
+	if c.Eco == "n" {
+		rw, err = guidedremediation.VerifNpmReadWriter()
+	} else {
+		sys = resolve.Maven
+		rw, err = guidedremediation.VerifMavenReadWriter("http://127.0.0.1:1/")
+	}
+	must(err)
+	abs, err := filepath.Abs(path)
+	must(err)
+	m, err := rw.Read(strings.TrimPrefix(filepath.ToSlash(abs), "/"), scalibrfs.DirFS("/"))
+	if err != nil {
+		return "?"
+	}
+	neutral := options.RemediationOptions{DevDeps: true, MaxDepth: -1, UpgradeConfig: upgrade.NewConfig()}
+	resolved, err := guidedremediation.VerifResolveManifest(context.Background(), cl, remx.Matcher(nil), m, &neutral)
+	if err != nil {
+		return "?"
+	}
+	g := resolved.Graph
+	// shortest distance from the root, and for every node the set of direct dependencies (edges out of the root) it is reachable through
+	dist := map[resolve.NodeID]int{0: 0}
+	queue := []resolve.NodeID{0}
+	for len(queue) > 0 {
+		n := queue[0]
+		queue = queue[1:]
+		for _, e := range g.Edges {
+			if e.From == n {
+				if _, ok := dist[e.To]; !ok {
+					dist[e.To] = dist[n] + 1
+					queue = append(queue, e.To)
+				}
+			}
+		}
+	}
+	nonDevReach := map[resolve.NodeID]bool{} // reachable through a direct dependency that is not dev / test
+	for _, e := range g.Edges {
+		if e.From != 0 {
+			continue
+		}
+		ka, _ := e.Type.GetAttr(dep.KnownAs)
+		name := g.Nodes[e.To].Version.Name
+		dev := false
+		for _, rd := range c.Root {
+			if rd.Name == name && rd.Alias == ka && rd.Dev {
+				dev = true
+			}
+		}
+		if dev {
+			continue
+		}
+		seen := map[resolve.NodeID]bool{e.To: true}
+		st := []resolve.NodeID{e.To}
+		for len(st) > 0 {
+			n := st[len(st)-1]
+			st = st[:len(st)-1]
+			nonDevReach[n] = true
+			for _, e2 := range g.Edges {
+				if e2.From == n && !seen[e2.To] {
+					seen[e2.To] = true
+					st = append(st, e2.To)
+				}
+			}
+		}
+	}
+	// MavenManagement: a dependencyManagement entry of the manifest whose package nothing in the graph requires counts as a direct,
+	// non-test dependency at its managed version (worked out here, the neutral resolution above runs without the option)
+	managed := map[string]string{}
+	if c.MavenMgmt {
+		for _, rd := range c.Root {
+			inGraph := false
+			for id, n := range g.Nodes {
+				inGraph = inGraph || (id != 0 && n.Version.Name == rd.Name)
+			}
+			if rd.Mgmt && !inGraph {
+				for _, p := range c.Pkgs {
+					if p.Name != rd.Name {
+						continue
+					}
+					if slices.Contains(p.Versions, rd.Req) {
+						managed[rd.Name] = rd.Req
+					} else if lo, ok := strings.CutPrefix(rd.Req, "["); ok && strings.HasSuffix(lo, ",)") {
+						// a range [lo,): the newest known version at or above lo, if there is one (otherwise a resolve error, no node)
+						lo = strings.TrimSuffix(lo, ",)")
+						if i := slices.Index(c.Table, lo); i >= 0 {
+							for _, v := range c.Table[i:] {
+								if slices.Contains(p.Versions, v) {
+									managed[rd.Name] = v
+								}
+							}
+						}
+					}
+				}
+			}
+		}
+	}
+	var out []int
+	for i, v := range c.Vulns {
+		o := osvs[i]
+		present, nonDev, near := false, false, false
+		for _, pk := range []string{v.Pkg, v.Also} {
+			if ver, ok := managed[pk]; ok && pk != "" && remx.Affects(o, sys, pk, ver) {
+				present, nonDev, near = true, true, 1 <= c.MaxDepth
+			}
+		}
+		for id, n := range g.Nodes {
+			if id == 0 || (n.Version.Name != v.Pkg && n.Version.Name != v.Also) || !remx.Affects(o, sys, n.Version.Name, n.Version.Version) {
+				continue
+			}
+			present = true
+			nonDev = nonDev || nonDevReach[resolve.NodeID(id)]
+			if d, ok := dist[resolve.NodeID(id)]; ok && d <= c.MaxDepth {
+				near = true
+			}
+		}
+		if !present {
+			continue
+		}
+		if len(c.Explicit) > 0 && !slices.Contains(c.Explicit, v.ID) {
+			continue
+		}
+		if slices.Contains(c.Ignore, v.ID) || slices.ContainsFunc(o.Aliases, func(a string) bool { return slices.Contains(c.Ignore, a) }) {
+			continue
+		}
+		if !c.DevDeps && !nonDev {
+			continue
+		}
+		best := -1
+		for _, si := range v.Sev {
+			if t := remx.SevTenths[si]; t >= 0 && t > best {
+				best = t
+			}
+		}
+		if best >= 0 && best < int(math.Round(10*c.MinSeverity)) {
+			continue
+		}
+		if c.MaxDepth > 0 && !near {
+			continue
+		}
+		out = append(out, vnum(v.ID))
+	}
+	slices.Sort(out)
+	return dots(out)
 }
 
 var e2eNpmVers = []string{"1.0.0", "1.0.1", "1.1.0", "2.0.0", "2.1.0", "3.0.0"}
@@ -845,6 +1043,42 @@ func genE2E(r *rand.Rand) e2eCase {
 			}
 		}
 	}
+	if c.Eco == "m" && r.Intn(3) == 0 {
+		// dependencyManagement entries: for a package nothing requires (it is part of the graph only with MavenManagement), for the
+		// transitive package (pins its version), at a known version
+		c.MavenMgmt = r.Intn(3) != 0
+		for _, p := range c.Pkgs {
+			inRoot := false // a key in <dependencies> AND dependencyManagement is C13/pom-origin-ignored: not generated here
+			for _, rd := range c.Root {
+				inRoot = inRoot || rd.Name == p.Name
+			}
+			if !inRoot && (p.Name != tee || r.Intn(3) == 0) && r.Intn(2) == 0 {
+				rd := rootDep{Name: p.Name, Req: p.Versions[r.Intn(1+len(p.Versions)/2)], Mgmt: true}
+				switch r.Intn(6) {
+				case 0:
+					rd.Req = "[" + rd.Req + ",)" // a range: the newest version it admits
+				case 1:
+					rd.Req = "[" + c.Table[len(c.Table)-1] + ",)" // may admit nothing the registry knows
+				}
+				c.Root = append(c.Root, rd)
+			}
+		}
+	}
+	if c.Eco == "n" && r.Intn(5) == 0 {
+		// one or two workspace packages with requirements of their own on the universe's packages
+		for i, n := 0, 1+r.Intn(2); i < n; i++ {
+			w := workPkg{Name: []string{"ws-a", "@mono/ws.b"}[i]}
+			for _, p := range c.Pkgs {
+				if r.Intn(2) == 0 {
+					w.Deps = append(w.Deps, [2]string{p.Name, req(p.Versions[r.Intn(1+len(p.Versions)/3)])})
+				}
+			}
+			if len(w.Deps) == 0 {
+				w.Deps = [][2]string{{tee, req(teeVers[0])}}
+			}
+			c.Work = append(c.Work, w)
+		}
+	}
 	// vulnerabilities: mostly chains on one package (fixed at rank f, the next one introduced at f), so that fixing one
 	// can introduce another; the base versions are low, so the first link usually affects what is resolved
 	nv := 1 + r.Intn(3)
@@ -872,6 +1106,12 @@ func genE2E(r *rand.Rand) e2eCase {
 			v.Fixed = lo + 1 + r.Intn(min(2, len(c.Table)-lo-1))
 			prev = v.Fixed
 		}
+		if r.Intn(6) == 0 { // one record, two packages
+			v.Also = c.Pkgs[r.Intn(len(c.Pkgs))].Name
+			if v.Also == v.Pkg {
+				v.Also = ""
+			}
+		}
 		c.Vulns = append(c.Vulns, v)
 	}
 	if r.Intn(3) == 0 {
@@ -893,6 +1133,20 @@ func genE2E(r *rand.Rand) e2eCase {
 	}
 	if r.Intn(8) == 0 {
 		c.Explicit = []string{vid(1 + r.Intn(nv))}
+	}
+	// every third case: severities on the records (top level or on the affected[] entry; one or two vectors, some that do not
+	// score) and a severity threshold — at, just below and just above the scores that occur
+	if r.Intn(3) == 0 {
+		for i := range c.Vulns {
+			if r.Intn(4) == 0 {
+				continue // no severity at all: always selected
+			}
+			for n := 1 + r.Intn(2); n > 0; n-- {
+				c.Vulns[i].Sev = append(c.Vulns[i].Sev, r.Intn(len(remx.SevTable)))
+			}
+			c.Vulns[i].SevInAff = r.Intn(3) == 0
+		}
+		c.MinSeverity = []float64{0, 2.5, 4.2, 4.25, 6.1, 7.5, 7.55, 7.44, 9.8, 9.9, 10}[r.Intn(11)]
 	}
 	for _, n := range names {
 		if r.Intn(5) == 0 {
@@ -930,6 +1184,9 @@ func main() {
 		for _, l := range hx.ReplayLines(o.Replay) {
 			t := strings.Split(l, " ")
 			switch t[0] {
+			case "ep":
+				k, _ := strconv.Atoi(t[1])
+				out.Emit(fmt.Sprintf("ep %d", k), hx.Guard(func() string { return remx.EntryPoint(k, scratch) }))
 			case "cp":
 				if !haveShim {
 					continue
@@ -972,5 +1229,8 @@ func main() {
 	for i := 0; i < o.N/4; i++ {
 		c := genE2E(r)
 		out.Emit(c.line(), runE2E(c))
+	}
+	for k := 0; k < remx.EntryPointKinds; k++ {
+		out.Emit(fmt.Sprintf("ep %d", k), hx.Guard(func() string { return remx.EntryPoint(k, scratch) }))
 	}
 }
